@@ -2,6 +2,7 @@ import PhyVerif.Driver.Json
 import PhyVerif.Driver.C16
 import PhyVerif.Driver.C15
 import PhyVerif.Driver.C07
+import PhyVerif.Driver.C01
 open Lean PhyVerif.Driver
 
 def dispatch (j : Json) : R Json := do
@@ -11,6 +12,7 @@ def dispatch (j : Json) : R Json := do
   | "C16" => runC16 op j
   | "C15" => runC15 op j
   | "C07" => runC07 op j
+  | "C01" => runC01 op j
   | _ => .error s!"unknown property {p}"
 
 def handle (line : String) : String :=
